@@ -19,8 +19,8 @@ META = {
         "seeded random YAML documents: pipelines of 1-8 elements, each independently a registered !Tag in "
         "mapping / sequence / bare form or a legacy __type__ mapping with keyword items; argument values: "
         "scalars of every YAML type (plain, quoted, ints in several bases, floats, inf, bools, null, dates), "
-        "nested lists and mappings, anchors/aliases, nested lazily and eagerly evaluated tags, helper objects written "
-        "as nested __type__ mappings inside __type__ elements; tail as "
+        "nested lists and mappings, anchors/aliases, merge keys (`<<`) whose values the element partly overrides, nested lazily and eagerly evaluated tags, helper objects written "
+        "as nested __type__ mappings inside __type__ elements; elements whose truth value is False (`__bool__` / `__len__`); tail as "
         "template tag, as a tag that builds the pool while the YAML is read, or __type__; optional extra "
         "section and logging section; a third of the documents inject a constructor failure (8 exception types incl. KeyError, "
         "LookupError, AttributeError) at a random element. Reference for the decoded arguments: yaml.safe_load of the same argument text. "
@@ -110,16 +110,24 @@ def emit(value, placeholder):
 def gen_element(rnd, position, n):
     tail = position == n - 1
     if tail:
-        cls = rnd.choice(["VPool", "VPool", "VPoolNow"])
+        cls = rnd.choice(["VPool", "VPool", "VPoolNow", "VPoolEmpty"])  # VPoolEmpty, VDecoFalsy: objects whose truth value is False
     else:
-        cls = rnd.choice(["VCtrl", "VDeco", "VDeco2"]) if position == 0 else rnd.choice(["VDeco", "VDeco2"])
+        cls = rnd.choice(["VCtrl", "VDeco", "VDeco2", "VDecoFalsy"]) if position == 0 else rnd.choice(["VDeco", "VDeco2", "VDecoFalsy"])
     syntax = rnd.choice(["tag", "tag", "type"]) if cls != "VPoolNow" else "tag"
     form = rnd.choice(["map", "list", "bare"]) if syntax == "tag" else "map"
     args, kwargs = [], []
     if form == "map":
         keys = rnd.sample(KEYS, rnd.randint(0 if syntax == "type" else 1, 4))
         kwargs = [(k, gen_value(rnd, allow_tag=True, allow_type=syntax == "type")) for k in keys]
-        if len(kwargs) >= 2 and rnd.random() < 0.2:  # anchor / alias within one element
+        if rnd.random() < 0.15:
+            # a YAML merge key: shared settings, some of them overridden by the element's own keys
+            own = [k for k, _ in kwargs]
+            def shared():
+                ks = rnd.sample(KEYS, rnd.randint(1, 3)) + (rnd.sample(own, 1) if own and rnd.random() < 0.7 else [])
+                return ("map", [(k, ("scalar", rnd.choice(SCALARS[:17]))) for k in dict.fromkeys(ks)])
+            merged = shared() if rnd.random() < 0.6 else ("list", [shared(), shared()])
+            kwargs.insert(rnd.randint(0, len(kwargs)), ("<<", merged))
+        elif len(kwargs) >= 2 and rnd.random() < 0.2:  # anchor / alias within one element
             k0, v0 = kwargs[0]
             kwargs[0] = (k0, ("anchor", "anc%d" % position, v0))
             kwargs[1] = (kwargs[1][0], ("alias", "anc%d" % position))
@@ -322,6 +330,10 @@ def execute(case, result):
         if i < n - 1 and getattr(obj, "target", None) is not pipeline[i + 1]:
             problems.append("element %d: target is %r, not the next element %r" % (i, getattr(obj, "target", None), pipeline[i + 1]))
         args, kwargs = expected_args(e)
+        if any(k == "<<" for k, _ in e["kwargs"]):
+            result.count("elements_with_merge_key")
+        if not obj:
+            result.count("elements_whose_truth_value_is_false")
         compare(list(obj.args), args, eager_seen, problems, "element %d args" % i)
         compare(dict(obj.kwargs), kwargs, eager_seen, problems, "element %d kwargs" % i)
         if e["cls"] == "VPoolNow":
@@ -388,6 +400,6 @@ def run_shard(spec):
 def finish(total, tier):
     for name in ("documents_valid", "documents_with_failing_constructor", "elements_tag_map", "elements_tag_list", "elements_tag_bare",
                  "elements_type_map", "nested_eager_tags_checked", "tails_built_while_reading", "pipelines_compared_with_rshift",
-                 "extra_sections_digested", "elements_with_nested_type_helper", "failing_constructor_raising_KeyError"):
+                 "extra_sections_digested", "elements_with_nested_type_helper", "failing_constructor_raising_KeyError", "elements_with_merge_key", "elements_whose_truth_value_is_false"):
         if not total.counters.get(name) and not total.violations:
             total.inconc("monitor never observed: " + name)
